@@ -9,4 +9,8 @@ TEXT = {
         "text": "Reflexivity, antisymmetry (swap), transitivity, congruence of equal values, class-rank order and exactness of the numeric order (all four numeric types, NaN lowest) are Lean theorems over the model of bsonkit.Compare for ALL values; tie: class order + compareNumbers dispatch + helper bodies regenerated from source, differential correspondence on collision-rich pairs/triples plus an independent big.Rat oracle and order-law monitors on the implementation.",
         "note": "Trusted: Lean kernel; Go float comparison/conversion semantics as modelled; shopspring decimal.Cmp exact; strings valid UTF-8.",
     },
+    "C06": {
+        "text": "codec_roundtrip (byte-level BSON encode/decode of every supported value incl. NaN payloads, -0, Decimal128 specials, binary subtypes), file_roundtrip and reload_identity (buildCatalog ∘ decodeFile ∘ encodeFile ∘ buildFile = id on well-formed catalogs; the necessity of dot-free database names is itself a theorem) are Lean theorems; the model codec is compared byte for byte with bson.Marshal/Unmarshal and the model's load/store with the real FileStore on generated API histories (reopen, canonical dump, duplicate probes against every unique index).",
+        "note": "Trusted: Lean kernel; the real BSON codec (compared, not verified); index rebuild on load enters reload_identity as parameter indexOk (C15 covers index content); Go map order (decode is order-insensitive; exercised on real files).",
+    },
 }
